@@ -377,6 +377,46 @@ def _scipy_facts(tree: ast.AST) -> dict[str, str]:
     return out
 
 
+# the local methods of scipy.optimize.minimize that honour `bounds=` (SciPy 1.18; the others ignore the argument with a
+# RuntimeWarning).  harness/c20.py validates this table against the installed SciPy on every run.
+SCIPY_HONOURS_BOUNDS = frozenset({"Nelder-Mead", "Powell", "L-BFGS-B", "TNC", "COBYLA", "COBYQA", "SLSQP", "trust-constr"})
+
+_CLIPPING_CALL_BODY = (
+    "par_names=list(p0.keys())par_bounds=[bounds.get(name,(1e-06,1000000.0))fornameinp0]bounded=self.methodin_BOUNDED_LOCAL_METHODS"
+    "res:OptimizeResult=minimize(lambdapar_values:residual_fn(_pack_updates(par_values,par_names)),x0=list(p0.values()),"
+    "bounds=par_boundsifboundedelseNone,method=self.method,tol=self.tol)ifres.success:par_values=res.xifnotbounded:"
+    "par_values=np.clip(par_values,[-np.infiflbisNoneelselbforlb,_inpar_bounds],[np.infifubisNoneelseubfor_,ubinpar_bounds])"
+    "returnResult(OptimisationState(parameters=dict(zip(p0,par_values,strict=True)),residual=res.fun))"
+    "LOGGER.warning('Minimisationfaileddueto%s',res.message)returnResult(FitFailure(extra_info=[res.message]))"
+)
+
+
+def _scipy_shape(tree: ast.AST, sc: dict[str, str]) -> tuple[str, str]:
+    """What LocalScipyMinimizer.__call__ does with `self.method`: (bounds_arg, pack_x) of coq/fit/FitScipy.v.
+    Shipped: the box is handed over for every method, res.x / res.fun are packed untouched (exactly when the two boolean
+    facts `call` and `pack` hold).  Also recognised (so that the variant model runs against such a tree): the shape of
+    seeded change C20-8 -- bounds only for the methods that honour them, np.clip of res.x otherwise.  Anything else: Unknown."""
+    if sc["call"] == "true" and sc["pack"] == "true":
+        return "BoundsAlways", "PackResX"
+    cls = _find(tree, "LocalScipyMinimizer", ast.ClassDef)
+    call = next((n for n in getattr(cls, "body", []) if isinstance(n, ast.FunctionDef) and n.name == "__call__"), None)
+    if call is None:
+        return "BoundsArgUnknown", "PackXUnknown"
+    txt = "\n".join(ast.unparse(s) for s in _strip_doc(call.body)).replace(" ", "").replace("\n", "")
+    table = None
+    for n in getattr(tree, "body", []):
+        if isinstance(n, ast.Assign) and len(n.targets) == 1 and ast.unparse(n.targets[0]) == "_BOUNDED_LOCAL_METHODS":
+            try:
+                v = n.value
+                if isinstance(v, ast.Call) and ast.unparse(v.func) == "frozenset" and len(v.args) == 1:
+                    table = frozenset(ast.literal_eval(v.args[0]))
+            except Exception:  # noqa: BLE001
+                table = None
+    if txt == _CLIPPING_CALL_BODY and table == SCIPY_HONOURS_BOUNDS:
+        return "BoundsIfHonoured", "PackClippedIfIgnored"
+    return "BoundsArgUnknown", "PackXUnknown"
+
+
 _CHECK_KNOWN = (
     "seen: set[str] = set()\nfor name in names:\n    if name not in container or (unique and name in seen):\n"
     "        msg = f'{name!r} not found in {ctx}'\n        raise KeyError(msg)\n    seen.add(name)"
@@ -452,6 +492,8 @@ def extract_fit_facts() -> tuple[str, dict]:
     facts["wrapper"] = wr
     sc = _scipy_facts(t_sci)
     facts["scipy"] = sc
+    shape = _scipy_shape(t_sci, sc)
+    facts["scipy_shape"] = {"bounds_arg": shape[0], "pack_x": shape[1]}
     t_mod = ast.parse((src / "model.py").read_text())
     bm = {"vars": _batch_mode(t_mod, "update_variables", "variables", "_variables"),
           "pars": _batch_mode(t_mod, "update_parameters", "parameters", "_parameters")}
@@ -484,12 +526,14 @@ def extract_fit_facts() -> tuple[str, dict]:
     text = (
         "(* REGENERATED from src/mxlpy/fit/abstract.py, fit/routines.py, minimizers/_scipy.py, model.py (batch editors) by harness/c20_gen.py\n"
         "   -- do not edit.  Unrecognised shapes yield *Unknown / false, which breaks C20_fit_facts_pinned. *)\n"
-        "From Coq Require Import List QArith String.\nFrom Fit Require Import LossOps FitModel.\nImport ListNotations.\nOpen Scope string_scope.\n"
+        "From Coq Require Import List QArith String.\nFrom Fit Require Import LossOps FitModel FitScipy.\nImport ListNotations.\nOpen Scope string_scope.\n"
         "Definition gen_fit_facts : fit_facts :=\n"
         f"  mkFitFacts {s['args_unscaled']} {s['args_scaled']} {s['scale_shape']}\n"
         f"    ({rfact('steady')})\n    ({rfact('tc')})\n    ({rfact('proto')})\n"
         f"    ({wfact('steady')})\n    ({wfact('tc')})\n    ({wfact('proto')})\n"
         f"    {sc['lo']} {sc['hi']} {sc['call']} {sc['pack']} {sc['pack_updates']} {bm['vars']} {bm['pars']}.\n"
+        "(* what LocalScipyMinimizer.__call__ does with self.method: which methods get the box, how res.x is packed *)\n"
+        f"Definition gen_scipy_shape : scipy_shape := mkScipyShape {shape[0]} {shape[1]}.\n"
         "Definition gen_source_digests : list (string * string) := [\n  "
         + ";\n  ".join(f'("{k}", "{v}")' for k, v in digests.items())
         + "].\n"
